@@ -118,7 +118,8 @@ def corpus_task(task):
     if 'stab' in task['flags']:
         ok = 'pulp_status: Optimal' in real['text'] and 'stability_correct: True' in real['text']
     else:
-        ok = bool(m1 and m2 and m1.group(1).split() == m2.group(1).split())
+        st = lambda t: (re.search(r'^pulp_status: (.*)$', t, re.M) or [None, None])[1]
+        ok = bool(m1 and m2 and m1.group(1).split() == m2.group(1).split()) or (not m1 and not m2 and st(rec) == st(real['text']))
     if ok:
         res['discharged'] += 1
     else:
@@ -210,7 +211,8 @@ def replay(cex):
         if 'stab' in d['flags']:
             bad = not (out.get('parsed') and out['parsed']['status'] == 'Optimal' and out['parsed']['stability_correct'] == 'True')
         else:
-            bad = got != want
+            st = re.search(r'^pulp_status: (.*)$', rec, re.M)
+            bad = got != want or (want is None and (st and st.group(1).strip()) != (out.get('parsed') or {}).get('status'))
         return bad, 'real PuLP + CBC on %s %s: profile %s, recorded %s' % (d['inst'], d['argv_seq'], got, want)
     if cex.get('form') == 'e1':
         d = cex['data']
